@@ -73,12 +73,15 @@ class Reck:
         # Invert unitary so reck layout starts with fewest elements on mode 0
         unitary = np.flip(circuit.U, axis=(0, 1))
         phase_map, end_phases = reck_decomposition(unitary)
+        # Note: the modulo is applied twice below as a tiny negative float
+        # modulo 2*pi rounds to exactly 2*pi, which is outside of [0, 2*pi)
+        tp = 2 * np.pi
         phase_map = {
-            k: (v + self.error_model.get_phase_offset()) % (2 * np.pi)
+            k: (v + self.error_model.get_phase_offset()) % tp % tp
             for k, v in phase_map.items()
         }
         end_phases = [
-            (p + self.error_model.get_phase_offset()) % (2 * np.pi)
+            (p + self.error_model.get_phase_offset()) % tp % tp
             for p in end_phases
         ]
 
